@@ -847,6 +847,8 @@ def create_logger(id_, parameters, arg):
 
     parameters2 = list(filter(lambda x: 'tree.ratios' != x, parameters))
     models = ['joint', 'like', 'prior']
+    if not getattr(arg, "_has_prior", True):
+        models.remove('prior')
     if arg.coalescent:
         models.append('coalescent')
         if arg.coalescent in COALESCENT_PIECEWISE:
@@ -880,6 +882,8 @@ def create_sampler(id_, var_id, parameters, arg):
 
     parameters2 = list(filter(lambda x: 'tree.ratios' != x, parameters))
     models = ['joint.jacobian', 'joint', 'like', 'prior', var_id]
+    if not getattr(arg, "_has_prior", True):
+        models.remove('prior')
 
     if arg.location_regex:
         models.append('like.location')
